@@ -104,7 +104,12 @@ public:
       }
     auto catalog(mounted->volume()->root());
 
-    int sectors_used = 2;
+    // The sectors which hold the catalog are always in use: that's 2
+    // sectors, or 4 for a Watford DFS 62-file catalog.  But the
+    // catalog of an Opus DDOS volume is in track 0, outside the
+    // volume, so there files can begin at sector 0 of the volume.
+    int sectors_used =
+      static_cast<int>(DFS::data_sectors_reserved_for_catalog(catalog.disc_format()));
     const std::vector<DFS::CatalogEntry> entries = catalog.entries();
     for (const auto& entry : entries)
       {
